@@ -7,10 +7,12 @@
    soundness for every automaton whose states consist of LR(0)-valid items, completeness for every stable
    table; the side conditions are a boolean certificate (Gram/LalrCert.v: aut_cert / la_cert) that is evaluated
    on the reference construction for every generated grammar; (2) the cell/conflict layer.
-   NOT proved: that build_automaton passes aut_cert for every grammar and fuel (it is evaluated instead). *)
+   (3) build_loop creates only states justified by a symbol string (C03_build_loop_sound).
+   NOT proved: that build_automaton (incl. add_finals) passes aut_cert for every grammar and fuel - completeness
+   of the LR(0) collection and of closure depends on fuel; the certificate is evaluated per grammar instead. *)
 From Coq Require Import List ZArith Bool.
 From TM Require Import Gram.Cfg Gram.LalrRef Gram.Prec Gram.Prec_proofs Gram.PTables Gram.LalrTables.
-From TM Require Import Gram.LalrSpec Gram.LalrSpec_proofs Gram.LalrSpec_proofs2 Gram.LalrSpec_proofs3 Gram.LalrCert Gram.LalrCert_proofs.
+From TM Require Import Gram.LalrSpec Gram.LalrSpec_proofs Gram.LalrSpec_proofs2 Gram.LalrSpec_proofs3 Gram.LalrCert Gram.LalrCert_proofs Gram.LalrBuild_proofs.
 Import ListNotations.
 Local Open Scope Z_scope.
 
@@ -67,6 +69,20 @@ Theorem C03_lalr_la_exact :
   forall q it x, In x (la_get (lalr_la g a fuel) q it) <-> lalr1 g a q it x.
 Proof. exact lalr_la_exact. Qed.
 
+(* The LR(0) collection (soundness direction, every grammar and fuel): each state build_loop creates is reached
+   from a start state over some symbol string gamma, its kernel consists of kernel items of goto*(start_i, gamma)
+   and all its items are LR(0)-valid for gamma.  (The converse - every non-empty goto*(start_i, gamma) is a state,
+   and kernels are complete - is covered per grammar by cert_complete_state inside aut_cert, not proved in
+   general: it needs the fuel of closure/build_loop to suffice.) *)
+Theorem C03_build_loop_sound :
+  forall g fuel,
+  let a := build_loop fuel g (mkAut (map (fun inp => mkState [] (Some (fst inp)) 0) (g_inputs g)) []) 0 in
+  forall q st, 0 <= q -> nth_error (a_states a) (Z.to_nat q) = Some st ->
+  exists i gamma, reach a i gamma q /\
+                  (forall it, In it (s_kernel st) -> lr0_kernel g i gamma it) /\
+                  (forall it, In it (closure g (s_kernel st) (s_seed st)) -> lr0_valid g i gamma it).
+Proof. exact build_loop_sound. Qed.
+
 (* The definition of LR(1)-validity used above always contains the textbook one (a single closure rule with
    b in FIRST(beta a)), and coincides with it when the grammar has a terminal and every symbol used in a rule
    is nullable or has a non-empty FIRST (in particular for reduced grammars). *)
@@ -117,3 +133,4 @@ Print Assumptions C03_lalr_la_exact.
 Print Assumptions C03_first_sound.
 Print Assumptions C03_lr1_valid_contains_textbook.
 Print Assumptions C03_lr1_valid_is_textbook.
+Print Assumptions C03_build_loop_sound.
